@@ -1445,7 +1445,11 @@ def cases(tier):
         for lay in ('xyzw', 'wxyz'):
             cs += type_cases(T, lay, tier)
     cs += ctor_order_cases(cs)
+    import sys
+    from rules import c04_dq
+    cs += c04_dq.cases(tier, sys.modules[__name__])
     cs += canaries()
+    cs += c04_dq.canaries(sys.modules[__name__])
     return cs
 
 
